@@ -45,6 +45,31 @@ UNIT = dict(
             dict(rule='R7', pat=r'\.ok_or_else\(\|\| Error::InvalidStream\("[^"]*"\.to_string\(\)\)\)', to='.ok_or(IoError)', count=1, note='error payload dropped'),
             dict(rule='R12', lit='png::decode_frame(', to='decode_frame(', count=1, note='module path flattened'),
         ])),
+        dict(file=O, impl='Stream', name='decompress_zlib', rules=dict(no_sink=True, raw_sig=True, subst=[
+            dict(rule='R7', lit='fn decompress_zlib(input: &[u8], params: Option<&Dictionary>) -> Result<Vec<u8>> {', to='fn decompress_zlib(input: &[u8], params: Option<&Dictionary>) -> (r: Result<Vec<u8>>)\n    {', count=1, note='result named'),
+            dict(rule='R12', pat=r'use flate2::read::ZlibDecoder;\s*use std::io::prelude::\*;', to='', count=1, note='imports dropped'),
+            dict(rule='R5', lit='Vec::with_capacity(input.len() * 2)', to='Vec::with_capacity(cap_hint2(input.len()))', count=1, note='capacity hint (a slice length times two cannot overflow: slices hold at most isize::MAX bytes; the capacity is not observable)'),
+            dict(rule='R15', pat=r'let mut decoder = ZlibDecoder::new\(input\);\s*if !input\.is_empty\(\) \{\s*decoder\.read_to_end\(&mut output\)\.unwrap_or_else\(\|err\| \{\s*0\s*\}\);\s*\}', to='if !input.is_empty() {\n            zlib_read_to_end(input, &mut output);\n        }', count=1, note='flate2 ZlibDecoder::new + read_to_end (errors logged and ignored: what was inflated so far is kept) as one uninterpreted shim'),
+        ])),
+        dict(file=O, impl='Stream', name='decompress_lzw', rules=dict(no_sink=True, raw_sig=True, subst=[
+            dict(rule='R7', lit='fn decompress_lzw(input: &[u8], params: Option<&Dictionary>) -> Result<Vec<u8>> {', to='fn decompress_lzw(input: &[u8], params: Option<&Dictionary>) -> (r: Result<Vec<u8>>)\n    {', count=1, note='result named'),
+            dict(rule='R12', pat=r'use weezl::\{decode::Decoder, BitOrder\};\s*const MIN_BITS: u8 = 9;', to='', count=1, note='imports and codec constant dropped with the codec calls'),
+            dict(rule='R10', pat=r'let early_change = params\s*\.and_then\(\|p\| p\.get\((lit_\w+\(\))\)\.ok\(\)\)\s*\.and_then\(\|p\| Object::as_i64\(p\)\.ok\(\)\)\s*\.map\(\|v\| v != 0\)\s*\.unwrap_or\(true\);', to=r'let early_change = opt_dict_i64_or(params, \1, 1) != 0;', count=1, note='Option<&Dictionary>.and_then(get).and_then(as_i64).map(!= 0).unwrap_or(true) template'),
+            dict(rule='R15', pat=r'let mut decoder = if early_change \{\s*Decoder::with_tiff_size_switch\(BitOrder::Msb, MIN_BITS - 1\)\s*\} else \{\s*Decoder::new\(BitOrder::Msb, MIN_BITS - 1\)\s*\};\s*let output = Self::decompress_lzw_loop\(input, &mut decoder\);', to='let output = lzw_decode_all(input, early_change);', count=1, note='weezl Decoder construction + decompress_lzw_loop (decode_all, errors logged and ignored) as one uninterpreted shim'),
+        ])),
+        dict(file=O, impl='Stream', name='decompressed_content', rules=dict(no_sink=True, raw_sig=True, pre_subst=[
+            dict(rule='R7', lit='fn decompressed_content(&self) -> Result<Vec<u8>> {', to='fn decompressed_content(&self) -> (r: Result<Vec<u8>>)\n    {', count=1, note='result named'),
+            dict(rule='R10', lit='for (index, filter) in filters.into_iter().enumerate() {', to='for (index, &filter) in filters.iter().enumerate() {', count=1, note='into_iter().enumerate() over a Vec<&[u8]> as iter().enumerate() with a dereferencing pattern (same elements, same order)'),
+            dict(rule='R10', pat=r'let params = match decode_parms \{\s*Some\(Object::Array\(parms\)\) => parms\.get\(([\w ]+)\)\.and_then\(\|parm\| parm\.as_dict\(\)\.ok\(\)\),\s*Some\(parm\) => parm\.as_dict\(\)\.ok\(\),\s*None => None,\s*\};', to=r'let params = match decode_parms {\n                Some(Object::Array(parms)) => if \1 < parms.len() { as_dict_opt(&parms[\1]) } else { None },\n                Some(parm) => as_dict_opt(parm),\n                None => None,\n            };', count=1, note='slice.get(i).and_then(as_dict().ok()) and as_dict().ok() templates'),
+            dict(rule='R10', pat=r'output = match filter \{\s*b"(\w+)" => ([^\n]*)\?,', to=r'output = {\n                if bytes_are(filter, b"\1") { \2? }', count=1, note='match on byte-string literals as an if / else-if chain: first arm'),
+            dict(rule='R10', pat=r'\n(\s*)b"(\w+)" => ([^\n]*)\?,', to=r'\n\1else if bytes_are(filter, b"\2") { \3? }', note='further arms as else-if'),
+            dict(rule='R10', lit='_ => return Err(Error::Unimplemented("decompression algorithms")),', to='else { return Err(IoError); }', count=1, note='match arm as else; error value as opaque tag'),
+        ], subst=[
+            dict(rule='R5', pat=r'let decode_parms = self\.dict\.get\((lit_\w+\(\))\)\.ok\(\);', to=r'let decode_parms = result_ok(self.dict.get(\1));', count=1, note='Result::ok shim'),
+            dict(rule='R5', lit='let mut output = vec![];', to='let mut output: Vec<u8> = Vec::new();', count=1, note='vec![] as Vec::new()'),
+            dict(rule='R5', lit='input = &output;', to='input = output.as_slice();', optional=True, note='&Vec<u8> as &[u8]'),
+            dict(rule='R5', lit='return Ok(self.content.clone());', to='return Ok(clone_vec(&self.content));', optional=True, note='Vec<u8>::clone shim'),
+        ])),
         dict(file=O, impl='Stream', name='decompress', rules=dict(no_sink=True)),
         dict(file=O, impl='Stream', name='compress', rules=dict(no_sink=True, subst=[
             dict(rule='R12', pat=r'use flate2::write::ZlibEncoder;\s*use flate2::Compression;\s*use std::io::prelude::\*;', to='', count=1, note='imports dropped'),
